@@ -128,7 +128,16 @@ class Lower:
       init, _, cond, inc, body = (n['inner'] + [{}] * 5)[:5]
       m = self.canonical_for(init, cond, inc)
       if m is None:
-        raise Unsupported('non-canonical for loop')
+        # general form: init; while (cond) { body; inc; }   (no `continue` support needed here)
+        out = self.stmt(init, ind) if init.get('kind') else []
+        out.append(pad + 'while %s:' % (self.cond(cond) if cond.get('kind') else 'True'))
+        b = self.stmt(body, ind + 1)
+        if any('continue' in l for l in b):
+          raise Unsupported('continue inside a non-canonical for loop')
+        out.extend(b)
+        if inc.get('kind'):
+          out.extend(self.stmt(inc, ind + 1))
+        return out
       var, lo, hi = m
       out = []
       if kind_of(init['inner'][0]) == 'int':
